@@ -40,6 +40,8 @@ def c01_random(ctx, n_core, n_ext):
         hs.append(dict(id="pm-%d" % i, opt=dict(shards=0, watchwithoutclass=True), steps=steps))
     # tcp services sharing a port between a host-less ingress and SNI hostnames
     hs += [U.random_tcp_history(rng, "rt-%d" % i, steps=4 + rng.randrange(3)) for i in range(max(60, n_ext // 4))]
+    # TCP services of the tcp-services ConfigMap
+    hs += [U.random_tcpcm_history(rng, "rm-%d" % i, steps=4 + rng.randrange(3)) for i in range(max(60, n_ext // 5))]
     # pods behind the endpoints: drain-support, blue/green by pod label, names, cookies and ids taken from the pod
     hs += [U.random_pod_history(rng, "rp-%d" % i, steps=4 + rng.randrange(3)) for i in range(max(60, n_ext // 4))]
     return hs
